@@ -90,6 +90,7 @@ let () =
       (* cases <file.tok> <dump-dir> *)
       let ic = open_in Sys.argv.(2) in
       let dump = Sys.argv.(3) in
+      let vout = open_out (Sys.argv.(2) ^ ".views.jsonl") in
       (try
         while true do
           let c = parse ic in
@@ -102,6 +103,13 @@ let () =
             (b2s r.Run.cr_relevant) (b2s r.Run.cr_roundtrip) (b2s r.Run.cr_same_status)
             (b2s r.Run.cr_same_out) (b2s r.Run.cr_same_diag)
             (Stdlib.String.concat " " (Stdlib.List.map (fun (k, v) -> utf8_of_cps k ^ "=" ^ utf8_of_cps v) r.Run.cr_extra));
+          (match r.Run.cr_views with
+           | Json.JNull -> ()
+           | v ->
+               let b = Buffer.create 1024 in
+               Buffer.add_string b ("{\"id\":" ^ json_escape id ^ ",\"views\":");
+               print_json b v; Buffer.add_string b "}\n";
+               Buffer.output_buffer vout b);
           if r.Run.cr_relevant && not (r.Run.cr_same_out && r.Run.cr_same_diag && r.Run.cr_same_status && r.Run.cr_roundtrip) then begin
             let b = Buffer.create 4096 in
             Buffer.add_string b "{\"model_out\":";
@@ -118,7 +126,7 @@ let () =
             close_out oc
           end
         done
-      with End_of_file -> ())
+      with End_of_file -> close_out vout)
   | "text" ->
       let ic = open_in Sys.argv.(2) in
       (try
